@@ -5,8 +5,9 @@
   `unreachable = nodes - 1`; every newly tagged neighbour decrements `unreachable`;
   the answer is `unreachable == 0`.
 
-  With `nodes == 0` the C++ writes `tag(1)` into an `IntegerList` of one cell (heap buffer
-  overflow, no exception): the model returns `none` there.
+  `if (nodes() == 0) return false;` comes first (since /repo commit fb9ac93; before that the
+  C++ wrote `tag(1)` into an `IntegerList` of one cell — finding F13).  The result type is
+  still `Option Bool`; `none` is never produced.
 
   `while (!stack.empty())` has no syntactic bound: fuel.  Every iteration pops one node and a
   node is pushed only when it gets tagged, so `nodes + 1` iterations always suffice
@@ -41,9 +42,9 @@ def connInit (g : Adj) : ConnState :=
   { stack := [1], tag := (Array.replicate (g.nodes + 1) 0).setIfInBounds 1 1,
     unreachable := (g.nodes : Int) - 1 }
 
-/-- `connected()`; `none` = the out-of-bounds write for an empty graph -/
+/-- `connected()` -/
 def connected (g : Adj) : Option Bool :=
-  if g.nodes = 0 then none
+  if g.nodes = 0 then some false
   else some ((connLoop g (g.nodes + 1) (connInit g)).unreachable == 0)
 
 end Gama
